@@ -167,6 +167,10 @@ def check(ctx, rep):
     prog = ctx.prog
     rep.rule("R09a", "a scripted gophermap gives exactly one entry per line, in file order, with the documented meaning of each line shape "
              "(evaluated in three directories, LF and CRLF line ends)", floor=3)
+    rep.rule("R09e", "= R03m: the description of a gophermap line is an argument of the format operations that render it, never part of a format "
+             "string (a `%` in a description must not end the menu)", floor=1)
+    from .c03 import format_string_obligations
+    format_string_obligations(ctx, rep, "R09e")
     rep.rule("R09d", "a directory that holds a gophermap, and a regular file named *.gophermap, are rendered from the gophermap - whatever the "
              "directory is called; nothing else is", floor=1)
     rep.rule("R09b", "getinfoentry(text): an informational entry of type i named text", floor=1)
